@@ -319,6 +319,24 @@ pub fn corpus() -> Vec<Item> {
         let d = simple_desc(&img, 4, 3, 255, 13 + k);
         out.push(item(if ans { "rgb-4x3-icc-ans" } else { "rgb-4x3-icc-prefix" }, &img, vec![encode_frame(&img, &d)], 1));
     }
+    // VarDCT streams (JPEG-transcode style: DCT8, YCbCr, raw quant tables), without and with restoration filters
+    for (name, w, h, filters, iters, ans) in [("vardct-ycbcr-32x16", 32usize, 16usize, false, 0u32, false), ("vardct-ycbcr-48x40-gab-epf", 48, 40, true, 0, true), ("vardct-ycbcr-40x24-epf3", 40, 24, true, 3, false), ("vardct-ycbcr-17x9-epf1", 17, 9, true, 1, false)] {
+        let mut t = crate::explore::Tape::default();
+        let mut c = crate::c17::cfg_from(&mut t);
+        c.size = (w, h);
+        c.pattern = 5;
+        let spec = crate::c17::spec_of(&c, 7);
+        out.push(Item { name: name.into(), bytes: spec.write_codestream_opts(ans, filters, iters), frames: 1, keyframes: 1, width: w as u32, height: h as u32 });
+    }
+    // cropped VarDCT frames on a larger canvas (inside, partly outside, completely outside), with and without YCbCr
+    for (name, canvas, ycbcr) in [("vardct-ycbcr-24x16-crop-inside", (40u32, 40u32, 3i32, 5i32), true), ("vardct-noycbcr-24x16-crop-partial", (40, 40, -5, 30), false), ("vardct-noycbcr-24x16-crop-disjoint", (40, 40, 400, 3), false)] {
+        let mut t = crate::explore::Tape::default();
+        let mut c = crate::c17::cfg_from(&mut t);
+        c.size = (24, 16);
+        c.pattern = 5;
+        let spec = crate::c17::spec_of(&c, 7);
+        out.push(Item { name: name.into(), bytes: spec.write_codestream_cropped(false, false, 0, Some(canvas), ycbcr), frames: 1, keyframes: 1, width: canvas.0, height: canvas.1 });
+    }
     let _ = BitWriter::new();
     out
 }
